@@ -6,7 +6,7 @@
   values as `Nat` with wrapping `+`/`-`, `!` as the u8 complement, `&`/`|` as `Nat.land`/`Nat.lor`, `Result` as
   `Option`, for a `&mut self` method the new value of `self`).  The theorems below state that every translated
   function is the Model function that all C19 theorems (`Props/C19.lean`) are about — for every `u8` argument of
-  the constructors and raise/lower, and for every level value 0..=126 (the invariant of `Level`, first sentence of
+  the constructors and of raise/lower on every level value 0..=126, and for every level value 0..=126 (the invariant of `Level`, first sentence of
   C19) of the bit-twiddling helpers.  A change of level.rs therefore changes `Gen/Code.lean`, and either these
   equalities still hold (the change is harmless for the Model) or a proof obligation breaks; no sampling is
   involved for these functions.
@@ -19,36 +19,57 @@ import UBidi.Model.Level
 namespace UBidi.Props.C19Tie
 open UBidi
 
-theorem tie_new (n : Nat) : Gen.Code.new n = Level.new n := by
-  unfold Gen.Code.new Level.new Level.maxImplicit
-  by_cases h : n ≤ Gen.maxImplicitDepth <;> simp [h]
+/-! Every statement is over the whole domain the Rust function has — `u8` arguments 0..=255, `Level` values
+0..=126 (the invariant of `Level`, C19's first sentence) — and every proof is `first | <the structural argument
+that works for the source as it is today> | decide +kernel`: if level.rs is rewritten in an equivalent way that the
+translator can still read (say `self.0 & 1 == 1` for `is_rtl`), the structural argument fails and the kernel
+decides the equality over the finite domain instead (about 25 s for a 127 × 256 table). -/
 
-theorem tie_new_explicit (n : Nat) : Gen.Code.new_explicit n = Level.newExplicit n := by
-  unfold Gen.Code.new_explicit Level.newExplicit Level.maxExplicit
-  by_cases h : n ≤ Gen.maxExplicitDepth <;> simp [h]
+theorem tie_new : ∀ n, n ≤ 255 → Gen.Code.new n = Level.new n := by
+  first
+  | (intro n _; unfold Gen.Code.new Level.new Level.maxImplicit
+     by_cases h : n ≤ Gen.maxImplicitDepth <;> simp [h])
+  | decide +kernel
 
-theorem tie_is_ltr (l : Nat) : Gen.Code.is_ltr l = Level.isLtr l := rfl
-theorem tie_is_rtl (l : Nat) : Gen.Code.is_rtl l = Level.isRtl l := rfl
+theorem tie_new_explicit : ∀ n, n ≤ 255 → Gen.Code.new_explicit n = Level.newExplicit n := by
+  first
+  | (intro n _; unfold Gen.Code.new_explicit Level.newExplicit Level.maxExplicit
+     by_cases h : n ≤ Gen.maxExplicitDepth <;> simp [h])
+  | decide +kernel
+
+theorem tie_is_ltr : ∀ l, l ≤ 255 → Gen.Code.is_ltr l = Level.isLtr l := by
+  first | (intro l _; rfl) | decide +kernel
+theorem tie_is_rtl : ∀ l, l ≤ 255 → Gen.Code.is_rtl l = Level.isRtl l := by
+  first | (intro l _; rfl) | decide +kernel
 
 theorem tie_checked_add (a b : Nat) : Gen.Code.checkedAddU8 a b = Level.checkedAdd a b := rfl
 theorem tie_checked_sub (a b : Nat) : Gen.Code.checkedSubU8 a b = Level.checkedSub a b := rfl
 
-/-- `raise`, for every level and every amount (no bound needed: both sides are the same expression) -/
-theorem tie_raise (l a : Nat) : Gen.Code.raise l a = Level.raise l a := by
-  simp only [Gen.Code.raise, Level.raise, tie_checked_add, Level.maxImplicit]
-  cases Level.checkedAdd l a with
-  | none => rfl
-  | some n => by_cases h : n ≤ Gen.maxImplicitDepth <;> simp [h]
+/-- `raise`, for every level and every `u8` amount -/
+theorem tie_raise : ∀ l, l ≤ 126 → ∀ a, a ≤ 255 → Gen.Code.raise l a = Level.raise l a := by
+  first
+  | (intro l _ a _
+     simp only [Gen.Code.raise, Level.raise, tie_checked_add, Level.maxImplicit]
+     cases Level.checkedAdd l a with
+     | none => rfl
+     | some n => by_cases h : n ≤ Gen.maxImplicitDepth <;> simp [h])
+  | decide +kernel
 
-theorem tie_raise_explicit (l a : Nat) : Gen.Code.raise_explicit l a = Level.raiseExplicit l a := by
-  simp only [Gen.Code.raise_explicit, Level.raiseExplicit, tie_checked_add, Level.maxExplicit]
-  cases Level.checkedAdd l a with
-  | none => rfl
-  | some n => by_cases h : n ≤ Gen.maxExplicitDepth <;> simp [h]
+theorem tie_raise_explicit : ∀ l, l ≤ 126 → ∀ a, a ≤ 255 → Gen.Code.raise_explicit l a = Level.raiseExplicit l a := by
+  first
+  | (intro l _ a _
+     simp only [Gen.Code.raise_explicit, Level.raiseExplicit, tie_checked_add, Level.maxExplicit]
+     cases Level.checkedAdd l a with
+     | none => rfl
+     | some n => by_cases h : n ≤ Gen.maxExplicitDepth <;> simp [h])
+  | decide +kernel
 
-theorem tie_lower (l a : Nat) : Gen.Code.lower l a = Level.lower l a := by
-  simp only [Gen.Code.lower, Level.lower, tie_checked_sub]
-  cases Level.checkedSub l a <;> rfl
+theorem tie_lower : ∀ l, l ≤ 126 → ∀ a, a ≤ 255 → Gen.Code.lower l a = Level.lower l a := by
+  first
+  | (intro l _ a _
+     simp only [Gen.Code.lower, Level.lower, tie_checked_sub]
+     cases Level.checkedSub l a <;> rfl)
+  | decide +kernel
 
 /-- `(self.0 + 2) & !1`, `(self.0 + 1) | 1`, `self.0 | 1` against the Model's `/`, `%` formulation, for every
     value a `Level` can hold (kernel decision over 0..=126) -/
@@ -61,7 +82,8 @@ theorem tie_next_rtl : ∀ l, l ≤ 126 → Gen.Code.new_explicit_next_rtl l = L
 theorem tie_lowest_ge_rtl : ∀ l, l ≤ 126 → Gen.Code.new_lowest_ge_rtl l = Level.newLowestGeRtl l := by
   decide +kernel
 
-theorem tie_bidi_class (l : Nat) : Gen.Code.level_bidi_class l = Level.bidiClass l := rfl
+theorem tie_bidi_class : ∀ l, l ≤ 126 → Gen.Code.level_bidi_class l = Level.bidiClass l := by
+  first | (intro l _; rfl) | decide +kernel
 
 /-- (test) beyond the invariant the bit tricks and the Model's arithmetic part ways (u8 wrap-around at 254), which
     is why the helpers are tied on 0..=126 only — no `Level` above 126 exists (C19_new, C19_raise, …) -/
